@@ -270,19 +270,23 @@ def h_history(E, depth, family):
             other = CRNHyperGraph()
             other.add_rxn({"A": 1}, {"C": i + 1}, rule="r", edge_id=oid)
             other.add_rxn({"B": 1}, {"C": i + 1}, rule="q")
+            # a second reaction of rule r with a generated id (r_2 next to r_1): when r_1 has to be re-numbered on merging,
+            # the new number must not be one that a later reaction of the other network still carries
+            oid2 = other.add_rxn({"B": 2}, {"A": i + 1}, rule="r")
+            oid2 = oid2 if isinstance(oid2, str) else [k for k in other.edges if k not in (oid, "q_1")][0]
             old = set(ref.edges)
             h.merge(other, prefix_edges=prefix)
             new = set(h.edges) - old
             got = sorted((h.edges[k].rule, sorted(h.edges[k].reactants.to_dict().items()),
                           sorted(h.edges[k].products.to_dict().items())) for k in new)
-            want = sorted([("r", [("A", 1)], [("C", i + 1)]), ("q", [("B", 1)], [("C", i + 1)])])
+            want = sorted([("r", [("A", 1)], [("C", i + 1)]), ("q", [("B", 1)], [("C", i + 1)]), ("r", [("B", 2)], [("A", i + 1)])])
             if got != want or not (old <= set(h.edges)):
                 E.check(True, "merge-lost-or-overwrote-a-reaction",
-                        dict(step=i, prefix=prefix, other_ids=[oid, "q_1"], before=sorted(old), after=sorted(h.edges),
+                        dict(step=i, prefix=prefix, other_ids=[oid, "q_1", oid2], before=sorted(old), after=sorted(h.edges),
                              new=got))
                 return
             if not prefix:
-                for k in (oid, "q_1"):
+                for k in (oid, "q_1", oid2):
                     if k not in old and k not in new:
                         E.check(True, "merge-changed-a-free-id", dict(step=i, id=k))
                         return
